@@ -18,6 +18,21 @@ func rulesC01(c *Ctx) {
 	c01Self(c)
 	c01Outermost(c)
 	c01Wrapper(c)
+	// "each policy handles only what the policy inside it returned … the function is invoked only when every
+	// enclosing policy admits the attempt": the wrapper summary of every policy executor
+	c.Rule("retry-wrapper")
+	retryLoop(c, map[string]bool{"loop": true, "returns": true})
+	c04Gate(c)
+	c04Pairing(c)
+	c05Executor(c)
+	c06Pairing(c)
+	c07Race(c)
+	c09Loop(c)
+	c10Apply(c)
+	c11Pre(c)
+	c11Post(c)
+	c16Executor(c)
+	ruleFailureResult(c)
 }
 
 // resultField loads field f of the PolicyResult a returned pointer term points to.
@@ -40,7 +55,7 @@ func c01Compose(c *Ctx) {
 		c.Unresolved("failsafe.(*executor).execute", "function not found")
 		return
 	}
-	ev := NewEvaluator(c.P, EvalConfig{MaxVisits: 4})
+	ev := NewEvaluator(c.P, EvalConfig{MaxVisits: visits(4)})
 	paths := ev.Run(fn)
 	if ev.Err != nil {
 		c.Undecided(c.fn(fn), c.P.FuncPos(fn), "evaluation failed: "+ev.Err.Error(), "")
